@@ -21,7 +21,7 @@ func init() {
 			"the two ordering constants, and eviction removes exactly the selected list element under the queue mutex; (O3) FIFO-named constructors pass the FIFO " +
 			"constant, LIFO-named ones the LIFO constant or rely on the default, ApplyDefaults maps the empty ordering to LIFO, and pool orderings map to the " +
 			"like-named limiter orderings; (O4) peek, acquire, evict and deliver in unblock are one exclusive critical section of the limiter mutex. The observable " +
-			"grant order additionally depends on arrival order = push order (C10) and on the scheduler; those are not decided here.",
+			"grant order additionally depends on arrival order = push order (C10) and on the scheduler; those are not decided here. Reused from sibling rules on the same tree: (O5) the line consists of the callers still waiting (C12/O2), (O6) freed capacity goes to the selected waiter (C10/O3, O5), (O7) a pool's limiter is the wrapper built from the pool constructor's own arguments (C19/O1).",
 	})
 }
 
